@@ -98,6 +98,10 @@ static bool judgeLog(vf::Case& c, const std::string& alg, double got, const Mode
     if (std::isfinite(got) || got > 0) c.fail(alg + "|loglik|finite-for-impossible-data", d());
     return false;
   }
+  bool wrong = std::isnan(got) || got == NINF || !(std::fabs(got - (double)r.logL) <= tolLog(m, r));
+  // input class with its own signature: the per-site rescaled quantities of these data do not fit a double (relative weight of a
+  // state below ~1e-290 inside one site); whatever the wrong answer looks like (-inf, NaN, finite), it is reported under this class
+  if (wrong && weightsBelowDoubleRange(m)) { c.fail(alg + "|loglik|wrong-when-a-state-weight-is-below-double-range-within-a-site", d() + " tol=" + num(tolLog(m, r))); return false; }
   if (std::isnan(got)) { c.fail(alg + "|loglik|nan", d()); return false; }
   if (got == NINF) { c.fail(alg + "|loglik|minus-infinity-for-possible-data", d()); return false; }
   if (!(std::fabs(got - (double)r.logL) <= tolLog(m, r))) { c.fail(alg + "|loglik|value", d() + " tol=" + num(tolLog(m, r))); return false; }
@@ -645,6 +649,7 @@ int main(int argc, char** argv) {
   R.note("data of probability 0 (all paths impossible) are recorded as an outcome class; only a finite answer is judged wrong there, posteriors and derivatives are not judged");
   R.note("posteriors, per-site likelihoods, derivatives and re-query answers of an object are judged only when its log-likelihood is right (they are downstream of the same forward pass)");
   R.note("derivative reference: exact second-order jets of the enumerated likelihood (sharper than finite differences of the enumerated log-likelihood, with which they agree)");
+  R.note("a wrong log-likelihood on data whose per-site rescaled forward quantities fall below 1e-290 (not representable next to a normalised scale in double) is reported under its own signature class, so that this input class cannot share a signature with any other wrong value");
   R.note("LowMemoryRescaledHmmLikelihood documents that it has no posteriors/derivatives (NotImplementedException): only its log-likelihood is judged");
   R.note("per-site likelihood = sum_j posterior(site,j) * emission(site,j), the definition both implementing classes use");
   return R.finish();
